@@ -1,4 +1,5 @@
-(* Proofs about model/VolPlanner.v (C15), part 8: volume.fix.replication. *)
+(* Proofs about model/VolPlanner.v (C15), part 8: volume.fix.replication (repaired:
+   planned copies are counted, a successful repair is not repeated). *)
 From Coq Require Import List NArith ZArith Bool Arith Lia Permutation.
 From SW Require Import model.VolPlanner proof.VolPlannerProofs proof.VolPlannerProofs2
   proof.VolPlannerProofs3 proof.VolPlannerProofs4 proof.VolPlannerProofs5 proof.VolPlannerProofs6.
@@ -36,29 +37,29 @@ Proof.
     + intros [Hx|Hx]; auto.
 Qed.
 
+Lemma fix_src_in : forall s vid src, fix_src s vid = Some src -> In src (reps_of s vid).
+Proof.
+  intros s vid src H. unfold fix_src in H. destruct (reps_of s vid) as [|r0 rs']; [discriminate|].
+  inversion H; subst. destruct (pick_from_in (r0 :: rs') r0) as [Hp|Hp]; [rewrite <- Hp; left; auto|exact Hp].
+Qed.
+
 (* ---------- what fix_copy_ok says ---------- *)
-Lemma fix_copy_facts : forall s vid from to, fix_copy_ok s vid from to = true ->
-  exists src t, In src (reps_of s vid) /\ l_node (r_loc src) = from /\
+Lemma fix_copy_facts : forall s planned vid from to, fix_copy_ok s planned vid from to = true ->
+  exists src t, fix_src s vid = Some src /\ In src (reps_of s vid) /\ l_node (r_loc src) = from /\
     In t s /\ n_id t = to /\
-    (0 <? cap_free t (v_dt (r_info src)))%Z = true /\
+    (0 < fix_free planned t (v_dt (r_info src)))%Z /\
     satisfy (rp_of_byte (v_rp (r_info src))) (locs (reps_of s vid)) (n_loc t) = true.
 Proof.
-  intros s vid from to H. unfold fix_copy_ok in H.
-  destruct (reps_of s vid) as [|r0 rs'] eqn:E; [discriminate|].
+  intros s planned vid from to H. unfold fix_copy_ok in H.
+  destruct (fix_src s vid) as [src|] eqn:Es; [|discriminate].
   apply andb_true_iff in H. destruct H as [Hfrom H].
   destruct (find_node s to) as [t|] eqn:Et; [|discriminate].
   apply find_node_some in Et. destruct Et as [Ht Etid].
   apply andb_true_iff in H. destruct H as [Hd _]. unfold fix_dst_ok in Hd.
-  apply andb_true_iff in Hd. destruct Hd as [Hfree Hsat].
-  exists (pick_from r0 (r0 :: rs')), t. repeat split; auto.
-  - destruct (pick_from_in (r0 :: rs') r0) as [Hp|Hp]; [rewrite <- Hp; left; auto|exact Hp].
+  apply andb_true_iff in Hd. destruct Hd as [Hfree Hsat]. apply Z.ltb_lt in Hfree.
+  exists src, t. repeat split; auto.
+  - apply fix_src_in; auto.
   - apply N.eqb_eq; auto.
-Qed.
-
-Lemma replica_at_app : forall rs extra r id, replica_at rs id = Some r -> replica_at (rs ++ extra) id = Some r.
-Proof.
-  induction rs as [|a rs IH]; intros extra r id H; [discriminate|].
-  unfold replica_at in *. cbn [app find] in *. destruct (l_node (r_loc a) =? id)%N; auto.
 Qed.
 
 Lemma ids_ok_cons_cl : forall s w vid t, NoDup (map n_id s) -> WInv s w -> In t s ->
@@ -70,14 +71,14 @@ Proof.
 Qed.
 
 (* one repair copy, for a volume not yet touched by this run *)
-Lemma copy_step_safe : forall s w vid from to,
+Lemma copy_step_safe : forall s planned w vid from to,
   wf_snap s -> w_reps w vid = reps_of s vid ->
-  fix_copy_ok s vid from to = true ->
+  fix_copy_ok s planned vid from to = true ->
   let pv := prop_step s w (Copy vid from to) in
   ok_coloc pv = true /\ ok_repair pv = true /\ ok_pres pv = true.
 Proof.
-  intros s w vid from to Hwf Hw H pv.
-  destruct (fix_copy_facts _ _ _ _ H) as [src [t [Hsrc [Efrom [Ht [Etid [_ Hsat]]]]]]].
+  intros s planned w vid from to Hwf Hw H pv.
+  destruct (fix_copy_facts _ _ _ _ _ H) as [src [t [_ [Hsrc [Efrom [Ht [Etid [_ Hsat]]]]]]]].
   destruct Hwf as [Hnd Hvids].
   pose proof (init_NodesOk s (conj Hnd Hvids) vid) as HN. cbn [init_world w_reps] in HN.
   pose proof (replica_at_unique _ _ HN Hsrc) as Hat. rewrite Efrom in Hat.
@@ -91,38 +92,40 @@ Proof.
     apply sub_placement_iff. apply satisfy_SubP; auto. apply sub_placement_iff; auto.
 Qed.
 
-(* ---------- the run without -retry: every copy is safe ---------- *)
-Lemma fix_under_safe : forall s evs pending cur w,
-  wf_snap s -> (cur = None \/ exists v, cur = Some (v, 0)) -> NoDup pending ->
+Lemma copy_step_other : forall s w vid from to vid', vid' <> vid ->
+  w_reps (apply_step s w (Copy vid from to)) vid' = w_reps w vid'.
+Proof.
+  intros. cbn [apply_step]. destruct (replica_at (w_reps w vid) from); [|reflexivity].
+  cbn [w_reps]. apply upd1_neq; auto.
+Qed.
+
+(* ---------- every copy of an accepted plan is safe ---------- *)
+Lemma fix_under_safe : forall s evs planned pending w,
+  wf_snap s -> NoDup pending ->
   (forall vid, In vid pending -> w_reps w vid = reps_of s vid) ->
-  fix_under_run s 0 pending cur evs = true ->
+  fix_under_run s planned pending evs = true ->
   ok_coloc (prop_trace s w (fix_steps evs)) = true /\
   ok_repair (prop_trace s w (fix_steps evs)) = true /\
   ok_pres (prop_trace s w (fix_steps evs)) = true.
 Proof.
-  intros s evs. induction evs as [|e evs IH]; intros pending cur w Hwf Hcur Hnd Hw H.
+  intros s evs. induction evs as [|e evs IH]; intros planned pending w Hwf Hnd Hw H.
   - cbn. auto.
-  - cbn [fix_under_run] in H. apply andb_true_iff in H. destruct H as [Hok H].
-    assert (mem_N (fev_vid e) pending = true /\
-            fix_under_run s 0 (remove_N (fev_vid e) pending) (Some (fev_vid e, 0)) evs = true) as [Hmem Hrec].
-    { destruct Hcur as [->|[v ->]]; apply andb_true_iff in H; exact H. }
-    apply mem_N_iff in Hmem. destruct (remove_N_nodup (fev_vid e) pending Hnd) as [Hnd' Hnin].
-    destruct e as [vid|vid at_|vid from to|vid]; try discriminate; cbn [fev_vid] in *.
+  - destruct e as [vid|vid at_|vid from to|vid]; cbn [fix_under_run] in H; try discriminate.
     + (* FCopy *)
-      destruct (copy_step_safe s w vid from to Hwf (Hw vid Hmem) Hok) as [Hc [Hr Hp]].
+      apply andb_true_iff in H. destruct H as [H Hrec]. apply andb_true_iff in H. destruct H as [Hmem Hok].
+      apply mem_N_iff in Hmem. destruct (remove_N_nodup vid pending Hnd) as [Hnd' Hnin].
+      destruct (copy_step_safe s planned w vid from to Hwf (Hw vid Hmem) Hok) as [Hc [Hr Hp]].
       cbn [fix_steps flat_map app]. fold (fix_steps evs). rewrite prop_trace_cons.
-      destruct (IH (remove_N vid pending) (Some (vid, 0)) (apply_step s w (Copy vid from to)))
-        as [Hc2 [Hr2 Hp2]]; auto.
-      { right. exists vid. reflexivity. }
+      destruct (IH _ (remove_N vid pending) (apply_step s w (Copy vid from to)) Hwf Hnd') as [Hc2 [Hr2 Hp2]]; auto.
       { intros vid' Hv'. assert (vid' <> vid) as Hne by (intro; subst; auto).
-        cbn [apply_step]. destruct (replica_at (w_reps w vid) from); [|apply Hw; eapply remove_N_in; eauto].
-        cbn [w_reps]. rewrite upd1_neq; auto. apply Hw. eapply remove_N_in; eauto. }
+        rewrite copy_step_other; auto. apply Hw. eapply remove_N_in; eauto. }
       unfold v4_and. cbn [ok_coloc ok_repair ok_pres]. rewrite Hc, Hc2, Hr, Hr2, Hp, Hp2. auto.
     + (* FNoPlace *)
+      apply andb_true_iff in H. destruct H as [H Hrec]. apply andb_true_iff in H. destruct H as [Hmem _].
+      destruct (remove_N_nodup vid pending Hnd) as [Hnd' _].
       cbn [fix_steps flat_map app]. fold (fix_steps evs).
-      apply (IH (remove_N vid pending) (Some (vid, 0)) w); auto.
-      * right. exists vid. reflexivity.
-      * intros vid' Hv'. apply Hw. eapply remove_N_in; eauto.
+      apply (IH planned (remove_N vid pending) w); auto.
+      intros vid' Hv'. apply Hw. eapply remove_N_in; eauto.
 Qed.
 
 Lemma take_overs_steps : forall evs a b, take_overs evs = (a, b) -> fix_steps evs = fix_steps b.
@@ -157,18 +160,18 @@ Proof.
   pose proof (find_none _ _ E r Hr) as Hn. cbn beta in Hn. congruence.
 Qed.
 
-(* volume.fix.replication without -retry (dry-run plan) *)
-Theorem fix_accepts_safe : forall s evs, wf_snap s -> fix_accepts s 0 evs = true ->
+(* volume.fix.replication (dry-run plan), any -retry *)
+Theorem fix_accepts_safe : forall s retry evs, wf_snap s -> fix_accepts s retry evs = true ->
   ok_coloc (prop_trace s (init_world s) (fix_steps evs)) = true /\
   ok_repair (prop_trace s (init_world s) (fix_steps evs)) = true /\
   ok_pres (prop_trace s (init_world s) (fix_steps evs)) = true.
 Proof.
-  intros s evs Hwf H. unfold fix_accepts in H.
+  intros s retry evs Hwf H. unfold fix_accepts in H.
   destruct s as [|n0 s0] eqn:Es; [destruct evs; [cbn; auto|discriminate]|]. rewrite <- Es in *.
   destruct (take_overs evs) as [overs rest] eqn:Et. rewrite (take_overs_steps _ _ _ Et).
   apply andb_true_iff in H. destruct H as [_ H].
   destruct (over_vids s) as [|ov ovs] eqn:Eo.
-  - apply (fix_under_safe s rest (under_vids s) None); auto. apply under_vids_nodup.
+  - apply (fix_under_safe s rest (fun _ _ => 0%Z) (under_vids s)); auto. apply under_vids_nodup.
   - destruct rest as [|[| vid at_ | |] [|? ?]]; try discriminate.
     apply andb_true_iff in H. destruct H as [Hmem Hdel]. apply mem_N_iff in Hmem.
     cbn [fix_steps flat_map app prop_trace]. unfold v4_and, v4_true. cbn [prop_step init_world w_reps].
@@ -181,99 +184,85 @@ Proof.
     rewrite Er in Hov. cbn [head_rp] in Hov. lia.
 Qed.
 
-(* ---------- free slots ---------- *)
-Lemma fix_under_len : forall s retry evs pending cur, fix_under_run s retry pending cur evs = true ->
-  length evs = (retry + 1) * length pending + match cur with Some (_, k) => k | None => 0 end.
+(* ---------- free slots by the true count ---------- *)
+Local Open Scope Z_scope.
+Definition counts_ok (s : snapshot) : Prop :=
+  forall n dt d, In n s -> disk_of n dt = Some d -> Z.of_nat (length (vols_of_dt n dt)) <= d_count d.
+
+Lemma counts_okb_ok : forall s, counts_okb s = true -> counts_ok s.
 Proof.
-  intros s retry evs. induction evs as [|e evs IH]; intros pending cur H.
-  - cbn [fix_under_run] in H. destruct pending; [|discriminate]. destruct cur as [[v [|k]]|]; try discriminate; cbn; lia.
-  - cbn [fix_under_run] in H. apply andb_true_iff in H. destruct H as [_ H].
-    assert (mem_N (fev_vid e) pending = true -> fix_under_run s retry (remove_N (fev_vid e) pending) (Some (fev_vid e, retry)) evs = true ->
-            length (e :: evs) = (retry + 1) * length pending) as Hnew.
-    { intros Hm Hr. apply IH in Hr. cbn [length]. rewrite Hr.
-      assert (S (length (remove_N (fev_vid e) pending)) = length pending) as Hl.
-      { clear - Hm. apply mem_N_iff in Hm. induction pending as [|a l IHl]; [destruct Hm|].
-        cbn [remove_N]. destruct (N.eqb_spec a (fev_vid e)); [reflexivity|].
-        cbn [length]. f_equal. apply IHl. destruct Hm; [congruence|auto]. }
-      nia. }
-    destruct cur as [[v [|k]]|]; cbn beta iota in H; apply andb_true_iff in H; destruct H as [H1 H2].
-    + rewrite (Hnew H1 H2). lia.
-    + apply IH in H2. cbn [length]. rewrite H2. lia.
-    + rewrite (Hnew H1 H2). lia.
+  intros s H n dt d Hn Hd. unfold counts_okb in H. rewrite forallb_forall in H.
+  specialize (H n Hn). rewrite forallb_forall in H.
+  pose proof Hd as Hd'. unfold disk_of in Hd'. apply find_some in Hd'. destruct Hd' as [Hin E].
+  apply N.eqb_eq in E. specialize (H d Hin). rewrite E, Hd in H. apply Z.leb_le in H. exact H.
 Qed.
 
-Local Open Scope Z_scope.
-Definition FixCap (s : snapshot) (w : world) (budget : nat) : Prop :=
-  forall n dt, In n s -> 0 < cap_free n dt ->
-    w_occ w (n_id n) dt + Z.of_nat budget <= max_of s (n_id n) dt.
-Definition Prefixed (s : snapshot) (w : world) : Prop :=
-  forall vid, exists extra, w_reps w vid = reps_of s vid ++ extra.
+(* the planner's count of planned copies is the real change of occupancy *)
+Definition OccInv (s : snapshot) (planned : N -> N -> Z) (w : world) : Prop :=
+  (forall id dt, w_occ w id dt = w_occ (init_world s) id dt + planned id dt) /\
+  (forall id dt, 0 <= planned id dt).
 
-Lemma fix_under_cap : forall s retry evs pending cur w,
-  wf_snap s -> FixCap s w (length evs) -> Prefixed s w ->
-  fix_under_run s retry pending cur evs = true ->
+Lemma fix_under_cap : forall s evs planned pending w,
+  wf_snap s -> counts_ok s -> OccInv s planned w ->
+  (forall vid, In vid pending -> w_reps w vid = reps_of s vid) -> NoDup pending ->
+  fix_under_run s planned pending evs = true ->
   ok_cap (prop_trace s w (fix_steps evs)) = true.
 Proof.
-  intros s retry evs. induction evs as [|e evs IH]; intros pending cur w Hwf Hcap Hpre H; [reflexivity|].
-  cbn [fix_under_run] in H. apply andb_true_iff in H. destruct H as [Hok H].
-  assert (exists p' c', fix_under_run s retry p' c' evs = true) as [p' [c' Hrec]].
-  { destruct cur as [[v [|k]]|]; apply andb_true_iff in H; destruct H; eauto. }
-  destruct e as [vid|vid at_|vid from to|vid]; try discriminate.
+  intros s evs. induction evs as [|e evs IH]; intros planned pending w Hwf Hcnt Hocc Hw Hnd H; [reflexivity|].
+  destruct e as [vid|vid at_|vid from to|vid]; cbn [fix_under_run] in H; try discriminate.
   - (* FCopy *)
-    destruct (fix_copy_facts _ _ _ _ Hok) as [src [t [Hsrc [Efrom [Ht [Etid [Hfree _]]]]]]].
-    apply Z.ltb_lt in Hfree. destruct Hwf as [Hnd Hvids].
-    pose proof (init_NodesOk s (conj Hnd Hvids) vid) as HN. cbn [init_world w_reps] in HN.
+    apply andb_true_iff in H. destruct H as [H Hrec]. apply andb_true_iff in H. destruct H as [Hmem Hok].
+    apply mem_N_iff in Hmem. destruct (remove_N_nodup vid pending Hnd) as [Hnd' Hnin].
+    destruct (fix_copy_facts _ _ _ _ _ Hok) as [src [t [Esrc [Hsrc [Efrom [Ht [Etid [Hfree _]]]]]]]].
+    rewrite Esrc in Hrec.
+    pose proof Hwf as [Hndn Hvids].
+    pose proof (init_NodesOk s Hwf vid) as HN. cbn [init_world w_reps] in HN.
     pose proof (replica_at_unique _ _ HN Hsrc) as Hat. rewrite Efrom in Hat.
-    destruct (Hpre vid) as [extra Hex].
-    assert (replica_at (w_reps w vid) from = Some src) as Hat' by (rewrite Hex; apply replica_at_app; auto).
+    assert (replica_at (w_reps w vid) from = Some src) as Hat' by (rewrite (Hw vid Hmem); exact Hat).
+    destruct Hocc as [Ho Hp].
     cbn [fix_steps flat_map app]. fold (fix_steps evs). rewrite prop_trace_cons.
     unfold v4_and. cbn [ok_cap]. apply andb_true_iff. split.
     + cbn [prop_step]. rewrite Hat'. cbn [ok_cap]. apply Z.ltb_lt.
-      pose proof (Hcap t _ Ht Hfree) as Hi. cbn [length] in Hi. rewrite Etid in Hi. lia.
-    + apply (IH p' c' _ (conj Hnd Hvids)); [ | |exact Hrec].
-      * unfold FixCap; intros n dt Hn Hf. pose proof (Hcap n dt Hn Hf) as Hi. cbn [length] in Hi.
-        cbn [apply_step]. rewrite Hat'. cbn [w_occ].
-        destruct (N.eq_dec (n_id n) to) as [E1|E1]; [destruct (N.eq_dec dt (v_dt (r_info src))) as [E2|E2]|].
-        -- subst dt. rewrite E1, upd2_same. rewrite E1 in Hi. lia.
-        -- rewrite upd2_other by (right; auto). lia.
-        -- rewrite upd2_other by (left; auto). lia.
-      * unfold Prefixed; intros vid'. cbn [apply_step]. rewrite Hat'. cbn [w_reps].
-        destruct (N.eq_dec vid' vid) as [->|Hne].
-        -- rewrite upd1_eq, Hex. rewrite <- app_assoc. eauto.
-        -- rewrite upd1_neq; auto.
+      set (dt := v_dt (r_info src)) in *.
+      rewrite Ho. cbn [init_world w_occ]. unfold max_of. rewrite <- Etid, find_node_in; auto.
+      unfold fix_free, cap_free in Hfree. unfold cap_max.
+      destruct (disk_of t dt) as [d|] eqn:Ed.
+      * pose proof (Hcnt t dt d Ht Ed). lia.
+      * pose proof (Hp (n_id t) dt). lia.
+    + apply (IH _ (remove_N vid pending) (apply_step s w (Copy vid from to))); auto.
+      * split.
+        -- intros id dt. cbn [apply_step]. rewrite Hat'. cbn [w_occ].
+           destruct (N.eq_dec id to) as [E1|E1]; [destruct (N.eq_dec dt (v_dt (r_info src))) as [E2|E2]|].
+           ++ subst. rewrite !upd2_same, Ho. lia.
+           ++ rewrite !upd2_other by (right; auto). apply Ho.
+           ++ rewrite !upd2_other by (left; auto). apply Ho.
+        -- intros id dt. destruct (N.eq_dec id to) as [E1|E1]; [destruct (N.eq_dec dt (v_dt (r_info src))) as [E2|E2]|].
+           ++ subst. rewrite upd2_same. pose proof (Hp to (v_dt (r_info src))). lia.
+           ++ rewrite upd2_other by (right; auto). apply Hp.
+           ++ rewrite upd2_other by (left; auto). apply Hp.
+      * intros vid' Hv'. assert (vid' <> vid) as Hne by (intro; subst; auto).
+        rewrite copy_step_other; auto. apply Hw. eapply remove_N_in; eauto.
   - (* FNoPlace *)
+    apply andb_true_iff in H. destruct H as [H Hrec]. apply andb_true_iff in H. destruct H as [Hmem _].
+    destruct (remove_N_nodup vid pending Hnd) as [Hnd' _].
     cbn [fix_steps flat_map app]. fold (fix_steps evs).
-    apply (IH p' c'); auto. unfold FixCap; intros n dt Hn Hf. pose proof (Hcap n dt Hn Hf) as Hi. cbn [length] in Hi. lia.
+    apply (IH planned (remove_N vid pending) w); auto.
+    intros vid' Hv'. apply Hw. eapply remove_N_in; eauto.
 Qed.
 
-Lemma cap_free_dt : forall s n dt, In n s -> 0 < cap_free n dt -> In dt (all_dts s).
-Proof.
-  intros s n dt Hn H. unfold cap_free, disk_of in H.
-  destruct (find (fun d => (d_type d =? dt)%N) (n_disks n)) as [d|] eqn:E; [|lia].
-  apply find_some in E. destruct E as [Hd E]. apply N.eqb_eq in E.
-  unfold all_dts. apply nodup_In. apply in_flat_map. exists n. split; auto. rewrite <- E. apply in_map; auto.
-Qed.
-
-Theorem fix_accepts_capacity : forall s retry evs, wf_snap s ->
-  trig_fix_cap s retry = false -> fix_accepts s retry evs = true ->
+Theorem fix_accepts_capacity : forall s retry evs, wf_snap s -> counts_okb s = true ->
+  fix_accepts s retry evs = true ->
   ok_cap (prop_trace s (init_world s) (fix_steps evs)) = true.
 Proof.
-  intros s retry evs Hwf Htr H. unfold fix_accepts in H.
+  intros s retry evs Hwf Hcnt H. unfold fix_accepts in H.
   destruct s as [|n0 s0] eqn:Es; [destruct evs; [reflexivity|discriminate]|]. rewrite <- Es in *.
   destruct (take_overs evs) as [overs rest] eqn:Et. rewrite (take_overs_steps _ _ _ Et).
   apply andb_true_iff in H. destruct H as [_ H].
   destruct (over_vids s) as [|ov ovs] eqn:Eo.
-  - apply (fix_under_cap s retry rest (under_vids s) None); auto.
-    + pose proof (fix_under_len _ _ _ _ _ H) as Hl. rewrite Hl, Nat.add_0_r.
-      unfold FixCap; intros n dt Hn Hf. unfold max_of. rewrite find_node_in; [|apply Hwf|auto].
-      unfold trig_fix_cap in Htr.
-      destruct (Z.ltb_spec (cap_max n dt) (w_occ (init_world s) (n_id n) dt + Z.of_nat ((retry + 1) * length (under_vids s)))) as [Hlt|Hge]; auto.
-      exfalso. assert (existsb (fun n => existsb (fun dt => (0 <? cap_free n dt) &&
-         (cap_max n dt <? w_occ (init_world s) (n_id n) dt + Z.of_nat ((retry + 1) * length (under_vids s))))
-         (all_dts s)) s = true); [|congruence].
-      apply existsb_exists. exists n. split; auto. apply existsb_exists. exists dt.
-      split; [eapply cap_free_dt; eauto|]. apply andb_true_iff. split; [apply Z.ltb_lt|apply Z.ltb_lt]; auto.
-    + unfold Prefixed; intros vid. exists []. cbn [init_world w_reps]. rewrite app_nil_r. reflexivity.
+  - apply (fix_under_cap s rest (fun _ _ => 0) (under_vids s)); auto.
+    + apply counts_okb_ok; auto.
+    + split; intros; lia.
+    + apply under_vids_nodup.
   - destruct rest as [|[| vid at_ | |] [|? ?]]; try discriminate.
     apply andb_true_iff in H. destruct H as [Hmem Hdel].
     cbn [fix_steps flat_map app prop_trace]. unfold v4_and, v4_true. cbn [prop_step init_world w_reps].
@@ -282,19 +271,13 @@ Proof.
 Qed.
 
 (* the planner's own notion of capacity (always respected) *)
-Theorem fix_copy_own_capacity : forall s vid from to, fix_copy_ok s vid from to = true ->
-  exists src t, In src (reps_of s vid) /\ l_node (r_loc src) = from /\ find_node s to = Some t /\
-    0 < cap_free t (v_dt (r_info src)).
+Theorem fix_copy_own_capacity : forall s planned vid from to, fix_copy_ok s planned vid from to = true ->
+  exists src t, In src (reps_of s vid) /\ l_node (r_loc src) = from /\ In t s /\ n_id t = to /\
+    0 < cap_free t (v_dt (r_info src)) - planned to (v_dt (r_info src)).
 Proof.
-  intros s vid from to H. unfold fix_copy_ok in H.
-  destruct (reps_of s vid) as [|r0 rs'] eqn:E; [discriminate|].
-  apply andb_true_iff in H. destruct H as [Hfrom H].
-  destruct (find_node s to) as [t|] eqn:Et; [|discriminate].
-  apply andb_true_iff in H. destruct H as [Hd _]. unfold fix_dst_ok in Hd.
-  apply andb_true_iff in Hd. destruct Hd as [Hfree _]. apply Z.ltb_lt in Hfree.
-  exists (pick_from r0 (r0 :: rs')), t. repeat split; auto.
-  - destruct (pick_from_in (r0 :: rs') r0) as [Hp|Hp]; [rewrite <- Hp; left; auto|exact Hp].
-  - apply N.eqb_eq; auto.
+  intros s planned vid from to H.
+  destruct (fix_copy_facts _ _ _ _ _ H) as [src [t [_ [Hsrc [Efrom [Ht [Etid [Hfree _]]]]]]]].
+  exists src, t. repeat split; auto. unfold fix_free in Hfree. rewrite Etid in Hfree. exact Hfree.
 Qed.
 
 Theorem balance_step_own_capacity : forall c st vid dt from to t,
@@ -308,7 +291,6 @@ Proof.
   repeat (apply andb_true_iff in Hok; destruct Hok as [Hok ?]).
   match goal with X : next_fits c st t = true |- _ => rename X into Hfit end.
   unfold next_fits in Hfit. apply Z.leb_le in Hfit.
-  apply find_cap_some in Ht. destruct Ht as [Ht _].
   assert (bc_sel_total c * snd t <= bc_max_total c * snd t) by nia.
   assert ((nsel st t + 1 - snd t) * bc_max_total c <= 0) by nia. nia.
 Qed.
